@@ -22,8 +22,8 @@ META = {
     "threads included) at most one multipart upload is created, no thread fails, every create/upload_part/complete "
     "call carries the one id, the lock is held exactly by the thread inside the critical section; every complete "
     "schedule ends with all threads returned and their parts uploaded (no deadlock), and schedules have at most "
-    "12 (18) effective steps per thread - for the in-process variant (after the F5 repair; the code as found "
-    "provably fails on a concrete 12-step schedule, local_once_cex) and for the cluster variant (shared Variable + "
+    "14 (18) effective steps per thread - for the in-process variant (after the F5 repair; the code as found "
+    "provably fails on a concrete 15-step schedule, local_once_cex) and for the cluster variant (shared Variable + "
     "Lock, per-worker copies).  MPUFileSink.finalise leaves the concatenation of the listed parts in the given "
     "order (empty parts anywhere, any part numbers), removes part files and directory, keep_parts keeps them; "
     "limit accessors return their own keyword or default with max > min (F17/F4 as _cex).  The models are tied to "
@@ -34,11 +34,14 @@ META = {
     "with context switches at lock/client/Variable operations, random fine-grained 3-4-thread schedules (34 k "
     "cases); thorough = 3 threads in both variants (about 510 k schedules).  Sink (every size vector over {0,1,3} "
     "for 1..4 parts in both orders, random 1..6 parts with overwrites/permutations/subsets/duplicates/unknown "
-    "parts, parts_base placements, keep_parts) and limits (every subset of the four keywords; accessor list by "
+    "parts, parts_base placements, keep_parts; about 60 % of the cases under a short-write fault model: every file "
+    "the sink opens for writing sits on a raw file that accepts only 1..4096 bytes per write call, as write(2) may, "
+    "so an unchecked unbuffered write truncates while buffered writers still produce the right file) and limits (every subset of the four keywords; accessor list by "
     "introspection of the PartsWriter protocol) are compared exactly; an independent two-sided oracle evaluates "
     "the property on every real run.",
     "note": "Trusted: Lean kernel + {propext, Classical.choice, Quot.sound}; the fakes at the client boundary "
-    "(S3 client, distributed.get_client/Variable/Lock, the lock object in _s3._state, an observable uploadId "
+    "(S3 client, distributed.get_client/Variable/Lock, the module dict _s3._state and the Lock constructor "
+    "_s3.Lock, the open/Path names seen by _mpu_fs under the short-write fault model, an observable uploadId "
     "attribute on a subclass that inherits all methods) and the scheduler; sequentially consistent execution of "
     "the steps.  Runtime behaviour the model cannot exhibit: CPython Lock fairness, the real distributed "
     "Variable/Lock (no cluster in the sandbox), _safe_get timeouts (a spurious None while the variable is set "
@@ -154,7 +157,7 @@ def schedules(R: Run):
     # a write racing with a finalise
     exhaustive("local", ["w1", "f"], None, NOGC if R.quick else None, "nogc" if R.quick else "fine")
     exhaustive("local", ["w1", "w2", "f"], None, NOGC, "nogc-gated", gate=True)  # two writes, then the finalise
-    exhaustive("local", ["w3", "w1", "w2"], None, C2 if R.quick else CW, "coarse")
+    exhaustive("local", ["w3", "w1", "w2"], None, C2 if R.quick else frozenset(C2 | {"ssd", "sset"}), "coarse")
     exhaustive("local", ["w1", "w2", "f"], None, C2 if R.quick else CW, "coarse")  # racing finalise
     # ---- cluster variant
     for workers in ([0, 1], [0, 0]):
